@@ -16,7 +16,7 @@ import (
 func init() {
 	register(&Prop{
 		ID:          "C12",
-		Decided:     "(1) the operator alternation of the shortcut regexes equals the case sets of compareNum and compareStr, and every case denotes its relation under all orderings (NaN unordered); (2) fallback discipline: the shortcut answers (ok=true) only after a successful type test matching the literal's kind, a missing or NULL field yields ok=false, a compound falls back as a whole when any part does; (3) no lossy coercion: every conversion of a 64-bit (or platform-width) integer to float64 on the shortcut path is reachable only within +-2^53, and a numeric literal is accepted only within +-2^53 (the general engine compares integer kinds as integers); (4) a failing evaluation rejects the row: the bool assertion on the VM result is reached only when err==nil, the error arm returns false, the program is compiled AsBool; (5) every predicate kind of the property (WHERE, HAVING, OVER-WHEN, TRIGGER-WHEN) is compiled by condition.NewExprCondition. Also: the quoted literal of the string shortcut admits no backslash (the general engine unescapes literals).",
+		Decided:     "(1) the operator alternation of the shortcut regexes equals the case sets of compareNum and compareStr, and every case denotes its relation under all orderings (NaN unordered); (2) fallback discipline: the shortcut answers (ok=true) only after a successful type test matching the literal's kind, a missing or NULL field yields ok=false, a compound falls back as a whole when any part does; (3) no lossy coercion: every conversion of a 64-bit (or platform-width) integer to float64 on the shortcut path is reachable only within +-2^53, and a numeric literal is accepted only within +-2^53 (the general engine compares integer kinds as integers); (4) a failing evaluation rejects the row: the bool assertion on the VM result is reached only when err==nil, the error arm returns false, the program is compiled AsBool; (5) every predicate kind of the property (WHERE, HAVING, OVER-WHEN, TRIGGER-WHEN) is compiled by condition.NewExprCondition. Also: the quoted literal of the string shortcut admits no backslash (the general engine unescapes literals). Also: the HAVING filters return nothing when their predicate fails to compile.",
 		NotDecided:  "equality of decisions for all values beyond the coercion clause (expr-lang's own semantics for mixed kinds and strings), parenthesised equivalents, NaN/Inf beyond the comparison tables.",
 		Assumptions: []string{"expr-lang v1.17.8 compares two integer-kind operands as integers (runtime.Less/Equal: int(x) < int(y)) and an integer with a float as float64 — read in the module cache"},
 		Run:         runC12,
